@@ -16,7 +16,7 @@ from sigma.exceptions import SigmaError
 from sigma.processing.pipeline import ProcessingPipeline
 from sigma.rule import SigmaRule
 from vlib.obl import Ob
-from vlib.params import P, concrete_section, fin
+from vlib.params import P, concrete_section, fin, sel, selb
 
 PROPERTY = "C08"
 TARGETS = [
@@ -32,6 +32,7 @@ TARGETS = [
 BOUNDS = {
     "collections": "3 rules; first two of any of 17 kinds (incl. a null keyword), third of 7 probe kinds (quick) / any kind (thorough); collect_errors on/off",
     "set-ups": "pipelines: none / mapping+state+failure+state-gated condition / strict field mapping; backends: shipped test backend, verification backend in NOT-as-not-equals mode",
+    "correlation rules": "[A, correlation over A, B] in two orders: A of 5 kinds (fine / fails in the pipeline / fails in conversion / null keyword), generate on/off, the correlation rule itself failed by a pipeline item or not, collect_errors on/off",
     "outside": "more than 3 rules; correlation rules (C09/C10); deferred query parts",
 }
 ASSUMPTIONS = ["set-up (0,3) reads the fixed data file /verif/harness/data/users.txt through the real file_placeholders transformation (caller opt-in allow_external_sources=True)", "process-wide caches (condition parse cache, modifier type-hint cache) are cleared before each stand-alone conversion and once before the collection is converted", "'converting that rule alone' = Backend.convert(SigmaCollection([rule])) with a new backend, a new pipeline from the same YAML and a new rule object from the same document"]
@@ -230,13 +231,78 @@ def c08_isolation(k0: int, k1: int, k2: int, collect: bool) -> bool:
     return fin(ok)
 
 
+# ---------------------------------------------------------------- collections with correlation rules
+def check_corr(ka: int, gen: bool, cfail: bool, collect: bool, pos: int) -> bool:
+    """[A (kind ka), correlation C over A, plain rule B] (B first if pos == 1): a failing A or C costs exactly its own
+    query and gives one record; B's query is what B alone gives; without collection the first error is raised."""
+    import yaml
+
+    a = rule_doc(ka, 0)
+    a["name"] = "rule_a"
+    bdoc = rule_doc(8, 1)
+    c = {"title": "corr", "correlation": {"type": "event_count", "rules": ["rule_a"], "group-by": ["u"], "timespan": "5m", "condition": {"gte": 2}, "generate": gen}}
+    docs = [bdoc, a, c] if pos == 1 else [a, c, bdoc]
+    pd = yaml.safe_load(PIPES[1])
+    if cfail:
+        pd["transformations"].append({"id": "cf", "type": "rule_failure", "message": "correlation failed by pipeline", "rule_conditions": [{"type": "is_sigma_correlation_rule"}]})
+
+    def backend(coll_errors):
+        return TextQueryTestBackend(ProcessingPipeline.from_dict(copy.deepcopy(pd)), collect_errors=coll_errors)
+
+    clear_caches()
+    alone_b = backend(True).convert(SigmaCollection.from_dicts([copy.deepcopy(bdoc)]))
+    ba = backend(True)
+    alone_a = ba.convert(SigmaCollection.from_dicts([copy.deepcopy(a)]))
+    a_fails = bool(ba.errors)
+    clear_caches()
+    b = backend(collect)
+    coll = SigmaCollection.from_dicts(copy.deepcopy(docs))
+    try:
+        out = b.convert(coll)
+    except SigmaError:
+        return (not collect) and (a_fails or cfail)
+    if not collect and (a_fails or cfail):
+        return False
+    failed = [r.title for r, _ in b.errors]
+    want_failed = (["r0"] if a_fails else []) + (["corr"] if (a_fails or cfail) else [])
+    if sorted(failed) != sorted(want_failed):
+        return False
+    # queries: B's as alone; A's own query only with generate; C's query only if nothing failed
+    if any(q not in out for q in alone_b):
+        return False
+    n_expected = len(alone_b) + (len(alone_a) if (gen and not a_fails) else 0) + (0 if (a_fails or cfail) else 1)
+    if len(out) != n_expected:
+        return False
+    if gen and not a_fails and any(q not in out for q in alone_a):
+        return False
+    return True
+
+
+def c08_correlation(ka: int, gen: bool, cfail: bool, collect: bool, pos: int) -> bool:
+    """
+    pre: 0 <= ka < 5
+    pre: 0 <= pos < 2
+    post: _
+    """
+    k = [0, 2, 3, 8, 16][sel(ka, 5)]
+    g, cf, co, po = selb(gen), selb(cfail), selb(collect), sel(pos, 2)
+    with concrete_section():
+        ok = check_corr(k, g, cf, co, po)
+    return fin(ok)
+
+
+def c08_correlation_concrete(ka: int, gen: bool, cfail: bool, collect: bool, pos: int) -> bool:
+    return check_corr(ka, gen, cfail, collect, pos)
+
+
 def c08_concrete(k0: int, k1: int, k2: int, collect: bool, bk: int, pipe: int) -> bool:
     return check([k0, k1, k2], collect, bk, pipe)
 
 
 SETUPS = [(0, 1), (1, 1), (0, 2), (0, 0), (0, 3)]  # (backend, pipeline)
 OBLIGATIONS = (
-    [Ob("c08_isolation", {"BK": bk, "PIPE": pp, "K0LO": lo, "K0HI": lo + (4 if lo == 6 else 5)}, 600) for bk, pp in SETUPS for lo in (0, 6, 11)]
+    [Ob("c08_correlation", {}, 600)]
+    + [Ob("c08_isolation", {"BK": bk, "PIPE": pp, "K0LO": lo, "K0HI": lo + (4 if lo == 6 else 5)}, 600) for bk, pp in SETUPS for lo in (0, 6, 11)]
     + [Ob("c08_isolation", {"BK": bk, "PIPE": pp, "K0LO": k, "K0HI": k, "FULL": 1}, 1800, tier="thorough") for bk, pp in SETUPS[:3] for k in range(NK)]
 )
 
